@@ -6,7 +6,7 @@ CONSTANT Depths          \* [seq |-> lengths, nest |-> nesting depths]
 DepthsQuick == [seq |-> <<10, 100, 10000>>, nest |-> <<10, 100, 1000>>]
 DepthsThorough == [seq |-> <<10, 100, 1000, 3000, 10000, 30000>>, nest |-> <<10, 100, 1000, 3000, 10000>>]
 VARIABLE i
-All == Fixed \o SetToSeq(RangeAdversarial) \o SetToSeq(KeyAdversarial) \o SetToSeq(PluralAdversarial) \o Cat([d \in 1..Len(Depths.seq) |-> DeepSeq(Depths.seq[d])]) \o Cat([d \in 1..Len(Depths.nest) |-> DeepNest(Depths.nest[d])])
+All == Fixed \o SetToSeq(RangeAdversarial) \o SetToSeq(KeyAdversarial) \o SetToSeq(PluralAdversarial) \o SetToSeq(NameAdversarial) \o Cat([d \in 1..Len(Depths.seq) |-> DeepSeq(Depths.seq[d])]) \o Cat([d \in 1..Len(Depths.nest) |-> DeepNest(Depths.nest[d])])
 Init == i = 1
 Next == i <= Len(All) /\ PrintT(<<"CASE", ToJson(All[i])>>) /\ i' = i + 1
 Spec == Init /\ [][Next]_i
